@@ -94,3 +94,23 @@ let () =
       (match EngineSM.generate (smodel_of tt structs protos msgs) (dict d) (dict a) (files fs) with
        | None -> L []
        | Some out -> L [L (List.map (fun (n, c) -> L [S n; S c]) out)]) | _ -> failwith "arity")
+
+(* ---- C16 templates (Spec/RefExpand16.v):  item16 ::= [ "X" text ] | [ "B" kind [line*] ] | [ "S" [line*] ]
+   kind ::= STATE | EVENT | ACTION | GUARD | STRUCT | PROTOMSG | MSG *)
+let ekind v = match str v with
+  | "STATE" -> RefExpand16.KState | "EVENT" -> RefExpand16.KEvent | "ACTION" -> RefExpand16.KAction | "GUARD" -> RefExpand16.KGuard
+  | "STRUCT" -> RefExpand16.KStruct | "PROTOMSG" -> RefExpand16.KProto | "MSG" -> RefExpand16.KMsg | _ -> failwith "ekind"
+let item16 v = match lst v with
+  | [k; s] when str k = "X" -> RefExpand16.Text (str s)
+  | [k; kd; body] when str k = "B" -> RefExpand16.Block (ekind kd, ulines body)
+  | [k; body] when str k = "S" -> RefExpand16.SigBlock (ulines body)
+  | _ -> failwith "item16"
+let template16 v = List.map item16 (lst v)
+
+let () =
+  register "s16.render" (function [t] -> vstrs (RefExpand16.render16 (template16 t)) | _ -> failwith "arity");
+  register "s16.ref16" (function [tt; structs; protos; msgs; t] ->
+      S (EngineDomain16.ref16_rows (rows tt) (strs structs) (strs protos) (strs msgs) (template16 t)) | _ -> failwith "arity");
+  register "d16.in_grammar16" (function [t] -> vbool (EngineDomain16.in_grammar16 (template16 t)) | _ -> failwith "arity");
+  register "d16.wf16" (function [tt; structs; protos; msgs; t] ->
+      vbool (EngineDomain16.wf16_rows (rows tt) (strs structs) (strs protos) (strs msgs) (template16 t)) | _ -> failwith "arity")
